@@ -325,9 +325,34 @@ class Inliner:
             out.extend(self.inline_stmt(s, caller, cls, depth))
         return out
 
+    def _unroll(self, s: ast.For) -> list[ast.stmt] | None:
+        """`for f in (helper_a, helper_b): … f(…) …`  →  the body once per helper, with the name substituted."""
+        if s.orelse or not isinstance(s.iter, (ast.Tuple, ast.List)) or not isinstance(s.target, ast.Name) or not s.iter.elts:
+            return None
+        if not all(isinstance(e, ast.Name) and e.id in self.mod.functions and "." not in e.id for e in s.iter.elts):
+            return None
+        if any(isinstance(x, (ast.Break, ast.Continue)) for b in s.body for x in ast.walk(b)):
+            return None
+        if any(isinstance(x, ast.Name) and x.id == s.target.id and isinstance(x.ctx, ast.Store) for b in s.body for x in ast.walk(b)):
+            return None
+        out: list[ast.stmt] = []
+        for e in s.iter.elts:
+            sub = _Subst({s.target.id: e}, {})
+            for b in s.body:
+                nb = sub.visit(clone(b))
+                ast.copy_location(nb, b)
+                ast.fix_missing_locations(nb)
+                out.append(nb)
+        return out
+
     def inline_stmt(self, s: ast.stmt, caller, cls, depth: int) -> list[ast.stmt]:
         if isinstance(s, FuncNode + (ast.ClassDef,)):
             return [s]
+        if isinstance(s, ast.For):
+            un = self._unroll(s)
+            if un is not None:
+                self.inlined_calls += 1
+                return self.inline_block(un, caller, cls, depth)
         # expression helpers are substituted in place, in every expression position of the statement header
         for fld, val in list(ast.iter_fields(s)):
             if fld in ("body", "orelse", "finalbody", "handlers", "cases"):
